@@ -629,3 +629,14 @@ func TestPolicies(t *testing.T) { polProp.Check(t) }
 var _ = qp.Map
 var _ = datamodel.DeepEqual
 var _ = basicnode.NewInt
+
+// FuzzSelector: native coverage-guided fuzzing of selector.Parse with the
+// full oracle (reference grammar, print/parse round trip, panel) in the target.
+func FuzzSelector(f *testing.F) {
+	for _, s := range []string{".", ".?", ".a", ".a.b?", `.["a b"]?`, ".[0]", ".[-1]?", ".[1:2]", ".[:3]?", ".[]", ".a[].b", `.["\""]`, ".a??", "..a"} {
+		f.Add(s)
+	}
+	f.Fuzz(func(t *testing.T, s string) {
+		strProp.One(t, StrCase{S: s})
+	})
+}
